@@ -3,7 +3,7 @@ use super::*;
 use anstyle::{Ansi256Color, AnsiColor, Color, RgbColor};
 
 const NEVER: usize = 99;
-const MAXCALLS: usize = 5;
+const MAXCALLS: usize = 4;
 
 fn ansi_index(c: AnsiColor) -> u8 {
     use AnsiColor::*;
@@ -137,20 +137,21 @@ fn printable() -> u8 {
     c
 }
 
-/// Skeleton `c1 ESC [ 3 d ; 4 e m c2`: two runs, the second with 16-colour fg and bg.
-/// Concrete structure, symbolic text / colour digits / console script.
-const LEN: usize = 10;
-fn skeleton() -> ([u8; LEN], u8, u8) {
-    let d: u8 = kani::any();
+/// Skeleton `c1 ESC [ 4 e m c2`: two runs, the second with a 16-colour background (the
+/// parser costs the solver ~40 s of symbolic execution per input byte, so the skeleton is as
+/// short as two differently coloured runs allow).  Concrete structure, symbolic text / colour
+/// digit / console script.
+const LEN: usize = 7;
+fn skeleton() -> ([u8; LEN], Option<u8>, Option<u8>) {
     let e: u8 = kani::any();
-    kani::assume(d < 8 && e < 8);
-    let buf = [printable(), 0x1B, b'[', b'3', b'0' + d, b';', b'4', b'0' + e, b'm', printable()];
-    (buf, d, e)
+    kani::assume(e < 8);
+    let buf = [printable(), 0x1B, b'[', b'4', b'0' + e, b'm', printable()];
+    (buf, None, Some(e))
 }
 
 /// Everything the console accepted, checked run by run.  Returns (ok, default-colour
 /// bytes taken, coloured bytes taken, first default byte, first coloured byte).
-fn accepted(rec: &Rec, fail_at: usize, d: u8, e: u8) -> (bool, usize, usize, u8, u8) {
+fn accepted(rec: &Rec, fail_at: usize, d: Option<u8>, e: Option<u8>) -> (bool, usize, usize, u8, u8) {
     let mut n0 = 0usize;
     let mut n1 = 0usize;
     let mut b0 = 0u8;
@@ -177,7 +178,7 @@ fn accepted(rec: &Rec, fail_at: usize, d: u8, e: u8) -> (bool, usize, usize, u8,
                         }
                         n0 += 1;
                     } else {
-                        if c.fg != Some(d) || c.bg != Some(e) {
+                        if c.fg != d || c.bg != e {
                             ok = false;
                         }
                         if n1 == 0 {
@@ -196,6 +197,9 @@ fn accepted(rec: &Rec, fail_at: usize, d: u8, e: u8) -> (bool, usize, usize, u8,
 
 macro_rules! write_all_case {
     ($name:ident, $cut:expr) => {
+        write_all_case!($name, $cut, None, None);
+    };
+    ($name:ident, $cut:expr, $script:expr, $fail:expr) => {
         /// write_all of the skeleton split at byte `$cut` into two calls: every run handed
         /// over exactly once, in order, with its colours, no escape byte as text; short
         /// counts are resumed, an interruption is retried, other errors surface.
@@ -203,9 +207,21 @@ macro_rules! write_all_case {
         #[kani::unwind(12)]
         fn $name() {
             let (buf, d, e) = skeleton();
-            let accept: [usize; MAXCALLS] = kani::any();
-            let fail_at: usize = kani::any();
-            kani::assume(fail_at < MAXCALLS || fail_at == NEVER);
+            let script_opt: Option<[usize; MAXCALLS]> = $script;
+            let fail_opt: Option<usize> = $fail;
+            // quick tier: concrete console scripts (text, colour and error kind stay symbolic)
+            let accept: [usize; MAXCALLS] = match script_opt {
+                Some(a) => a,
+                None => kani::any(),
+            };
+            let fail_at: usize = match fail_opt {
+                Some(f) => f,
+                None => {
+                    let f: usize = kani::any();
+                    kani::assume(f < MAXCALLS || f == NEVER);
+                    f
+                }
+            };
             let kind = any_kind();
             let mut rec = Rec::new(accept, fail_at, kind);
             let mut state = crate::adapter::WinconBytes::new();
@@ -240,11 +256,16 @@ macro_rules! write_all_case {
     };
 }
 
+const ALL: usize = usize::MAX;
+write_all_case!(write_all_s_accept_all, 2, Some([ALL; MAXCALLS]), Some(NEVER));
+write_all_case!(write_all_s_zero_second, 2, Some([ALL, 0, ALL, ALL]), Some(NEVER));
+write_all_case!(write_all_s_fail_first, 2, Some([ALL; MAXCALLS]), Some(0));
+write_all_case!(write_all_s_fail_second, 2, Some([ALL; MAXCALLS]), Some(1));
 write_all_case!(write_all_cut_0, 0);
 write_all_case!(write_all_cut_1, 1);
 write_all_case!(write_all_cut_2, 2);
-write_all_case!(write_all_cut_5, 5);
-write_all_case!(write_all_cut_9, 9);
+write_all_case!(write_all_cut_4, 4);
+write_all_case!(write_all_cut_6, 6);
 
 /// write(): reports the buffer as consumed only if all of its text was handed over.
 #[kani::proof]
